@@ -171,7 +171,8 @@ func BuildWire(p *Prog) *Wire {
 								continue
 							}
 							mod := k
-							if sel, ok := a.(*ast.SelectorExpr); ok {
+							if sel, ok := a.(*ast.SelectorExpr); ok && sel.Sel.Name == "StoreKey" {
+								// only the module's primary store key stands for the module; any other key (MemStoreKey, a literal) is its own store
 								if o := info.Uses[sel.Sel]; o != nil && o.Pkg() != nil {
 									if mn, ok := o.Pkg().Scope().Lookup("ModuleName").(*types.Const); ok && mn.Val().Kind() == constant.String {
 										mod = constant.StringVal(mn.Val())
